@@ -143,7 +143,13 @@ func runTopo(e *Env) {
 	cfg := BaseConfig(cl, "10.0.0.1")
 	cfg.ProtoVersion = []int{4, 3}[tp.Next(2)]
 	cfg.NumConns = 1 + tp.Next(2)
+	// the long timeout outlives the driver's one-second debounce windows, so that a refresh
+	// can still be in flight when the next event is acted upon
+	longTimeout := tp.Chance(1, 3)
 	cfg.Timeout = 300 * time.Millisecond
+	if longTimeout {
+		cfg.Timeout = 2500 * time.Millisecond
+	}
 	cfg.ConnectTimeout = 300 * time.Millisecond
 	cfg.ReconnectInterval = 0
 	cfg.ReconnectionPolicy = &gocql.ConstantReconnectionPolicy{MaxRetries: 1, Interval: 100 * time.Millisecond}
@@ -166,6 +172,13 @@ func runTopo(e *Env) {
 			}
 		}
 		return rows
+	}
+	holdPeers := false
+	cl.SystemFateFn = func(sc *node.SConn, rec *node.ReqRec) node.Fate {
+		if holdPeers && rec.Req.Query == "SELECT * FROM system.peers" {
+			return node.Hold
+		}
+		return node.Auto
 	}
 	valMeta := &cqlspec.RowsMeta{GlobalSpec: true, Columns: []cqlspec.ColSpec{{Keyspace: "ks", Table: "t", Name: "v", Type: cqlspec.ColType{ID: cqlspec.TVarchar}}}}
 	cl.App = func(sc *node.SConn, rec *node.ReqRec) {
@@ -202,18 +215,21 @@ func runTopo(e *Env) {
 			}
 		}
 		pick := func() *node.Host { return others[tp.Next(len(others))] }
-		ws := []int{3, 3, 2, 2, 2, 2, 1, 1, 2, 1, 2, 0}
+		ws := []int{3, 3, 2, 2, 2, 2, 1, 1, 2, 1, 2, 0, 2, 0}
 		if st.splitAddrs && len(others) > 0 {
 			ws[11] = 3
+		}
+		if longTimeout {
+			ws[13] = 3
 		}
 		if len(others) == 0 {
 			ws[1], ws[2], ws[3], ws[4], ws[6], ws[7] = 0, 0, 0, 0, 0, 0
 		}
 		if len(cl.Hosts) >= 6 {
-			ws[0] = 0
+			ws[0], ws[13] = 0, 0
 		}
 		if e.NoFaults {
-			ws = []int{1, 0, 0, 0, 0, 0, 0, 0, 1, 0, 0, 0}
+			ws = []int{1, 0, 0, 0, 0, 0, 0, 0, 1, 0, 0, 0, 0, 0}
 		}
 		peersBefore := cl.PeerQueries
 		switch tp.Weighted(ws) {
@@ -361,6 +377,48 @@ func runTopo(e *Env) {
 					}
 				}
 			}
+		case 12: // the control connection is lost and the cluster changes before anybody
+			// listens for events again: only the refresh after reconnecting can tell
+			k.Rec("step control-loss with a silent change")
+			k.Fault("topo.control-loss-with-silent-change")
+			if c := sess.VerifControlConn(); c != nil {
+				if sc, ok := c.VerifNetConn().(*simnet.Conn); ok {
+					if ssc := cl.SConnOf(sc); ssc != nil {
+						cl.CloseConn(ssc, false)
+					}
+				}
+			}
+			if len(others) > 0 && (len(cl.Hosts) >= 6 || tp.Chance(1, 2)) {
+				h := pick()
+				st.removeModel(h)
+				k.Rec("  silent leave %s", h.Addr)
+				st.unreachable(h.Addr)
+				st.eventFor("TOPOLOGY_CHANGE", "REMOVED_NODE", h)
+			} else {
+				h := st.newHost()
+				cl.Hosts = append(cl.Hosts, h)
+				k.Rec("  silent join %s %s", h.Addr, h.HostID)
+				st.eventFor("TOPOLOGY_CHANGE", "NEW_NODE", h)
+			}
+		case 13: // a second node joins while the refresh caused by the first is in flight:
+			// its answer was computed before the second node existed
+			h1 := st.newHost()
+			cl.Hosts = append(cl.Hosts, h1)
+			k.Rec("step join %s, then another during the refresh", h1.Addr)
+			k.Fault("topo.join-during-refresh")
+			st.eventFor("TOPOLOGY_CHANGE", "NEW_NODE", h1)
+			holdPeers = true
+			inFlight := k.SettleUntil(4*time.Second, 20*time.Millisecond, cl.Process, func() bool { return cl.PeerQueries > peersBefore })
+			if inFlight {
+				h2 := st.newHost()
+				cl.Hosts = append(cl.Hosts, h2)
+				k.Rec("  refresh in flight; join %s", h2.Addr)
+				st.eventFor("TOPOLOGY_CHANGE", "NEW_NODE", h2)
+				// the driver's event debounce (1 s) passes while the answer is still withheld
+				k.SettleUntil(1200*time.Millisecond, 20*time.Millisecond, cl.Process, func() bool { return false })
+				k.Probe("join-during-refresh")
+			}
+			holdPeers = false
 		case 11: // same host id, same rpc address, new node-to-node address
 			h := pick()
 			st.nextIP++
